@@ -414,21 +414,23 @@ class Rewriter:
         if not decls:
             return False
         writes = {}
+        whole = {}           # writes that replace the variable / field itself (not a part of it)
         addr = set()
         for y in walk(body):
             w = match.unop(y, ("++", "--")) or (match.binop(y, ("=", "+=", "-=", "*=", "/=", "%=", "|=", "&=", "^=", ">>=", "<<="))
                                                 if y["k"] in ("BinaryOperator", "CompoundAssignOperator", "CXXOperatorCallExpr") else None)
             if w:
-                t = w[1]
-                ip = match.index_parts(t)
-                base = strip_casts(ip[0]) if ip else strip_casts(t)
-                while base is not None and base["k"] == "MemberExpr" and kids(base):
-                    base = strip_casts(kids(base)[0])
-                if base is not None and base["k"] == "DeclRefExpr":
-                    writes.setdefault(base["ref"]["id"], []).append(y)
-                if base is not None and base["k"] == "This":
-                    f = match.this_field(strip_casts(ip[0]) if ip else strip_casts(t))
-                    writes.setdefault(("field", f), []).append(y)
+                root = lvalue_root(w[1])
+                if root is not None:
+                    writes.setdefault(root, []).append(y)
+                    t1 = strip_casts(w[1])
+                    if t1 is not None and (t1["k"] == "DeclRefExpr" or (t1["k"] == "MemberExpr" and match.this_field(t1))):
+                        whole.setdefault(root, []).append(y)
+                else:
+                    writes.setdefault("?", []).append(y)
+                t0 = strip_casts(w[1])
+                if t0 is not None and t0["k"] != "DeclRefExpr":
+                    writes.setdefault("?mem", []).append(y)      # a store into memory: may alias what an initialiser reads
             if y["k"] == "UnaryOperator" and y.get("op") == "&" and strip_casts(kids(y)[0])["k"] == "DeclRefExpr":
                 addr.add(strip_casts(kids(y)[0])["ref"]["id"])
             if "callee" in y and y["k"] in ("CallExpr", "CXXMemberCallExpr"):
@@ -478,9 +480,48 @@ class Rewriter:
                     ops.add(y["ref"]["id"])
                 if y["k"] == "MemberExpr" and match.this_field(y):
                     ops.add(("field", match.this_field(y)))
+            if (v.get("ty") or "").rstrip().endswith("&") and strip_casts(init).get("lv", True):
+                # a reference names an object: only what determines its ADDRESS must be unchanged - the indices, and the
+                # root variable / field as a whole (a store into the object itself is seen through the reference anyway)
+                root = lvalue_root(init)
+                if root is not None:
+                    idx_ops = set()
+                    e_ = strip_casts(init)
+                    for _ in range(12):
+                        if e_ is None:
+                            break
+                        ip_ = match.index_parts(e_)
+                        if ip_:
+                            for y in walk(ip_[1]):
+                                if y["k"] == "DeclRefExpr":
+                                    idx_ops.add(y["ref"]["id"])
+                                if y["k"] == "MemberExpr" and match.this_field(y):
+                                    idx_ops.add(("field", match.this_field(y)))
+                            e_ = strip_casts(ip_[0])
+                        elif e_["k"] in ("MemberExpr", "ParenExpr", "UnaryOperator") and kids(e_) and not (e_["k"] == "MemberExpr" and match.this_field(e_)):
+                            e_ = strip_casts(kids(e_)[0])
+                        else:
+                            break
+                    for o in idx_ops:
+                        for w in writes.get(o, []):
+                            pw = g.pos_deep(w)
+                            if pw is None or (g.path_between_avoiding(pd, pw, [pd]) is not None and g.path_between_avoiding(pw, pu, [pd]) is not None):
+                                return False
+                    for w in whole.get(root, []):
+                        pw = g.pos_deep(w)
+                        if pw is None or (g.path_between_avoiding(pd, pw, [pd]) is not None and g.path_between_avoiding(pw, pu, [pd]) is not None):
+                            # the root itself is replaced: fine for a plain variable / field (the reference follows the object),
+                            # not for a pointer that is re-seated
+                            if idx_ops or "*" in (strip_casts(init).get("ty") or ""):
+                                return False
+                    simple_root = strip_casts(init)["k"] == "DeclRefExpr" or bool(match.this_field(strip_casts(init)))
+                    if simple_root or not any("*" in (y.get("ty") or "") for y in walk(init) if y["k"] in ("DeclRefExpr", "MemberExpr")):
+                        return True
             calls = [y for y in walk(body) if "callee" in y and y["k"] in ("CallExpr", "CXXMemberCallExpr") and y["callee"]["name"] not in PURE_CALLS]
             fields = any(isinstance(o, tuple) for o in ops)
-            for o in ops:
+            reads_mem = any(y["k"] in ("MemberExpr", "ArraySubscriptExpr") or (y["k"] == "UnaryOperator" and y.get("op") == "*") or
+                            (y["k"] == "CXXOperatorCallExpr" and y.get("op") in ("[]", "*", "->")) or "callee" in y for y in walk(init))
+            for o in list(ops) + ["?"] + (["?mem"] if reads_mem else []):
                 for w in writes.get(o, []):
                     pw = g.pos_deep(w)
                     if pw is None:
@@ -537,6 +578,40 @@ class Rewriter:
         return done
 
 
+def lvalue_root(t):
+    """the variable (declaration id) or this-field (("field", name)) an lvalue expression lives in, through member
+    accesses, subscripts and dereferences; None if it cannot be told"""
+    from . import match
+    e = strip_casts(t)
+    for _ in range(12):
+        if e is None:
+            return None
+        k = e["k"]
+        if k == "DeclRefExpr":
+            return e["ref"]["id"]
+        if k == "MemberExpr":
+            f = match.this_field(e)
+            if f:
+                return ("field", f)
+            e = strip_casts(kids(e)[0]) if kids(e) else None
+            continue
+        if k == "ParenExpr" or (k == "UnaryOperator" and e.get("op") == "*"):
+            e = strip_casts(kids(e)[0])
+            continue
+        ip = match.index_parts(e)
+        if ip:
+            e = strip_casts(ip[0])
+            continue
+        if k == "CXXOperatorCallExpr" and e.get("op") in ("*", "->") and kids(e):
+            e = strip_casts(kids(e)[0])
+            continue
+        if "callee" in e and e.get("member_call") and e["callee"]["name"] in ("back", "front", "at", "top") and kids(e):
+            e = strip_casts(kids(e)[0])
+            continue
+        return None
+    return None
+
+
 GUARDISH = ("std::unique_lock<", "std::lock_guard<", "std::scoped_lock<", "std::thread")
 
 
@@ -576,7 +651,9 @@ def normalize_fn(tu, fn):
                     break
         cfg = cfgbuild.build(body)
         changed = has_novel_call
-        if rw.substitute_locals(body, cfg):
+        for _ in range(4):
+            if not rw.substitute_locals(body, cfg):
+                break
             cfg = cfgbuild.build(body)
             changed = True
     except (cfgbuild.Unsupported, Fail, KeyError, IndexError, TypeError):
